@@ -750,7 +750,7 @@ func runC05Conformance(c *Ctx) {
 	cc := dial(front.addr)
 	defer cc.Close()
 	inproc := newC05Env()
-	msgs := []string{"", "plain", "a%b é\n", "100%", "\x7f", "tab\there", strings.Repeat("y", 122) + "é", " lead and trail "}
+	msgs := []string{"", "plain", "a%b é\n", "100%", "\x7f", "tab\there", strings.Repeat("y", 122) + "é", " lead and trail ", strings.Repeat("x", 4060), strings.Repeat("日", 700)}
 	var validated int64
 	for _, code := range c05Codes {
 		if code > 1<<31-1 {
